@@ -395,6 +395,34 @@ func ruleReviewedInvariants(c *Ctx, r *Rule) {
 			}
 		}
 	}
+	// the reviewed index levelNames[ParseLevelAsNumber(..)] relies on the parser returning only
+	// LevelUnknown or one of the table's indexes: every result is a constant in [-1, len(levelNames))
+	if pl := c.Func("pipeline", "ParseLevelAsNumber"); pl == nil {
+		r.Unresolved("pipeline.ParseLevelAsNumber")
+	} else {
+		tableLen := int64(-1)
+		if pk := c.Pkgs[pipelinePkg]; pk != nil {
+			if obj := pk.Types.Scope().Lookup("levelNames"); obj != nil {
+				switch t := obj.Type().Underlying().(type) {
+				case *types.Array:
+					tableLen = t.Len()
+				}
+			}
+		}
+		r.Inst(1)
+		bad := ""
+		for _, ret := range returnsOf(pl) {
+			for _, leaf := range phiLeaves(retResults(ret)[0]) {
+				k, isK := constInt(stripConv(leaf))
+				if !isK {
+					bad = "a computed result " + c.path(leaf)
+				} else if k < -1 || (tableLen >= 0 && k >= tableLen) {
+					bad = fmt.Sprintf("result %d", k)
+				}
+			}
+		}
+		r.Ob(bad == "", "ParseLevelAsNumber|results-index-the-level-table", pl.Pos(), fmt.Sprintf("ParseLevelAsNumber returns only LevelUnknown or an index of the level-name table (%d entries; -1 = not an array)", tableLen)+ifs(bad != "", "; found "+bad+": ParseLevelAsString indexes the table with it"))
+	}
 	// k8s multi-line buffer
 	k8sPkg := modulePath + "/plugin/input/k8s"
 	nW := 0
